@@ -9,6 +9,7 @@ import (
 
 // frame of the function body currently being executed (the verified function or an inlined callee)
 type frame struct {
+	key       string
 	results   []*types.Var
 	retStates []*retState
 	loopOrd   int
@@ -84,7 +85,8 @@ func (c *Ctx) bindCallEnv(env *SpecEnv, sig *types.Signature, fd *ast.FuncDecl, 
 type modTarget struct {
 	fam, leaf string
 	ref       Term
-	idx       *Term // nil: whole row
+	idx       *Term // nil: whole row (or range when lo/hi are set)
+	lo, hi    *Term // absolute index range [lo,hi) inside the row
 }
 
 // modTargets evaluates a modifies clause expression to heap targets.
@@ -94,14 +96,34 @@ func (c *Ctx) modTargets(env *SpecEnv, cl *Clause) []modTarget {
 		var fams [][2]string
 		c.leafFamilies(prefix, t, &fams)
 		for _, f := range fams {
-			out = append(out, modTarget{f[0], f[1], ref, idx})
+			out = append(out, modTarget{fam: f[0], leaf: f[1], ref: ref, idx: idx})
 		}
 	}
 	var walk func(x SExpr)
 	walk = func(x SExpr) {
-		// a, b, c lists are written as separate clauses; support "x.f" / "x" / "*x"
+		// a, b, c lists are written as separate clauses; support "x.f" / "x" / "*x" / "x[lo:hi]"
 		if u, ok := x.(*SUn); ok && u.Op == "*" {
 			x = u.X
+		}
+		if sl, ok := x.(*SSlice); ok {
+			base, isSl := env.eval(sl.X).(Slice)
+			if !isSl {
+				env.fail("modifies: range target needs a slice")
+			}
+			lo, hi := base.Off, c.iadd(base.Off, base.Len)
+			if sl.Lo != nil {
+				lo = c.iadd(base.Off, env.idxTerm(env.eval(sl.Lo)))
+			}
+			if sl.Hi != nil {
+				hi = c.iadd(base.Off, env.idxTerm(env.eval(sl.Hi)))
+			}
+			var fams [][2]string
+			c.leafFamilies(c.elemPrefix(base.Elem), base.Elem, &fams)
+			for _, f := range fams {
+				l, h := lo, hi
+				out = append(out, modTarget{fam: f[0], leaf: f[1], ref: base.Ref, lo: &l, hi: &h})
+			}
+			return
 		}
 		// field target through pointer: x.f
 		if s, ok := x.(*SSel); ok {
@@ -185,8 +207,18 @@ func (c *Ctx) applyContractSig(st *State, x *ast.CallExpr, pk *Pkg, sig *types.S
 	// havoc the modifies footprint
 	for _, cl := range fc.Modifies {
 		for _, t := range c.modTargets(env, cl) {
+			c.checkCalleeTarget(st, t, x.Pos(), short)
 			h := c.heapGet(st, t.fam, t.leaf)
-			if t.idx == nil {
+			if t.lo != nil {
+				old := c.name(Select(h, t.ref), "orow")
+				row := c.declare("mrow", arraySort(c.idxSort(), t.leaf))
+				c.rangeAxiomRow(row, t.fam)
+				lo, hi := *t.lo, *t.hi
+				st.assume(c, c.forallIdx(func(i Term) Term {
+					return Implies(Or(c.ilt(i, lo), c.ile(hi, i)), Eq(Select(row, i), Select(old, i)))
+				}))
+				st.heaps[t.fam] = c.name(Store(h, t.ref, row), "H_"+t.fam)
+			} else if t.idx == nil {
 				row := c.declare("mrow", arraySort(c.idxSort(), t.leaf))
 				c.rangeAxiomRow(row, t.fam)
 				st.heaps[t.fam] = c.name(Store(h, t.ref, row), "H_"+t.fam)
@@ -299,6 +331,8 @@ func (c *Ctx) inlineCall(st *State, x *ast.CallExpr, pk *Pkg, fd *ast.FuncDecl, 
 	if pk.contracts != nil {
 		fc = pk.contracts.Funcs[funcKey(fd)]
 	}
+	c.inlineKey = funcKey(fd)
+	defer func() { c.inlineKey = "" }()
 	return c.inlineBodyFC(st, fd.Type, fd.Body, fd.Recv, recv, args, sig, x.Pos(), fc)
 }
 
@@ -311,8 +345,9 @@ func (c *Ctx) inlineBodyFC(st *State, ft *ast.FuncType, body *ast.BlockStmt, rec
 	c.inlineDepth++
 	defer func() { c.inlineDepth-- }()
 	saved := c.fr
-	c.fr = &frame{fc: fc, pkg: c.pkg, sig: sig}
+	c.fr = &frame{fc: fc, pkg: c.pkg, sig: sig, key: c.inlineKey}
 	defer func() { c.fr = saved }()
+	c.initDefers(st, body)
 	c.bindParams(st, ft, recvFL, recv, args)
 	c.declareResults(st, ft, sig)
 	out := c.execBlock(st, body.List)
